@@ -2,6 +2,7 @@
 import math
 import numpy as np
 from hypothesis import strategies as st
+from vlib import strategies as S
 
 from vlib.runner import Outcome, cut, CutError, close, maxrel
 
@@ -28,6 +29,8 @@ ASSUMPTIONS = [
 ]
 REQUIRED = {'native:explicit': 0.1, 'perm-native': 0.3, 'perm-target': 0.2, 'two-d': 0.15,
             'errors': 0.15, 'target:partly-outside': 0.05, 'target:wholly-outside': 0.03}
+# coverage-guided extra (thorough tier): pure-Python taurex modules on this property's path, instrumented by atheris
+FUZZ = {'include': ['taurex.binning', 'taurex.util.util'], 'runs': 40000, 'workers': 4}
 
 fl = st.floats
 
@@ -35,7 +38,7 @@ fl = st.floats
 @st.composite
 def _case(draw):
     kind = draw(st.sampled_from(['linear', 'log', 'constR', 'explicit', 'explicit']))
-    n = draw(st.integers(2, 60))
+    n = draw(S.ints(2, 60))
     start = draw(fl(10.0, 5000.0))
     nat = {'kind': kind, 'n': n, 'start': start}
     if kind == 'linear':
@@ -47,7 +50,7 @@ def _case(draw):
     else:
         nat['bins'] = draw(st.lists(st.tuples(fl(0.0, 3.0), fl(0.05, 5.0)), min_size=n, max_size=n))
         nat['gapp'] = draw(st.sampled_from([0.0, 0.3, 1.0]))
-    nt = draw(st.integers(1, 12))
+    nt = draw(S.ints(1, 12))
     targ = draw(st.lists(st.tuples(fl(-0.3, 1.3), fl(0.05, 20.0)), min_size=nt, max_size=nt))
     two_d = draw(st.sampled_from([0, 0, 0, 2, 3]))
     rows = max(two_d, 1)
@@ -59,8 +62,8 @@ def _case(draw):
         'scalar_width': draw(st.one_of(st.none(), st.none(), fl(0.05, 20.0))),
         'implied_target_width': draw(st.sampled_from([False, False, True])),
         'two_d': two_d, 'spec': spec, 'spec2': spec2, 'err': err,
-        'perm_n': draw(st.permutations(list(range(n)))),
-        'perm_t': draw(st.permutations(list(range(nt)))),
+        'perm_n': draw(S.perm(list(range(n)))),
+        'perm_t': draw(S.perm(list(range(nt)))),
         'ab': [draw(fl(-5, 5)), draw(fl(-5, 5))], 'regrid': draw(fl(0.3, 3.0)), 'const': draw(fl(-1e6, 1e6)),
     }
 
